@@ -1,0 +1,39 @@
+//go:build verif
+
+// Contracts for package collector: the nested-document store (read by /verif/gocv; comment-only
+// effect with the verif tag off).
+//
+// C20: hits are root (parent) documents. ProcessNestedDocument folds a matching descendant into the
+// interim root it belongs to, and hands out an interim root exactly when a document of another root
+// arrives: a document is merged into the current root iff its last ancestor is the current root's
+// id; the root handed out is the previous interim root; a new interim root carries the root's id.
+
+package collector
+
+// the root of a document: the last entry of its ancestor chain (assumed of the index reader)
+//@ uf rootOf(id index.IndexInternalID) uint64
+//@ assume func index.NestedReader.Ancestors(r, id, prealloc)
+//@   requires r != nil
+//@   modifies prealloc[*]
+//@   ensures implies(result1 == nil && len(result0) > 0, uint64(result0[len(result0)-1]) == rootOf(id) && implies(len(result0) == 1, idNumC(id) == rootOf(id)))
+//@ uf idNumC(id index.IndexInternalID) uint64
+//@ assume func index.AncestorID.Equals(a, b)
+//@   pure
+//@   ensures result == (a == b)
+//@ assume func index.AncestorID.ToIndexInternalID(a, prealloc)
+//@   modifies prealloc[*]
+//@   ensures idNumC(result) == uint64(a) && len(result) == 8
+
+// the interim root and the id it stands for
+//@ spec nestedInv(c *collectStoreNested) bool = implies(c.currRoot != nil, idNumC(c.currRoot.IndexInternalID) == uint64(c.currRootAncestorID))
+
+//@ func collectStoreNested.ProcessNestedDocument
+//@   props C20
+//@   mode int
+//@   requires c != nil && ctx != nil && ctx.DocumentMatchPool != nil && doc != nil && c.nr != nil && c.descAdder != nil && nestedInv(c) && doc != c.currRoot
+//@   modifies c.ancestors, c.ancestors[*], c.currRoot, c.currRootAncestorID, fields(search.DocumentMatch), search.DocumentMatchPool.avail, mem(*search.DocumentMatch), mem(byte)
+//@   ensures implies(result1 == nil, nestedInv(c))
+// same root as the interim root: merged, nothing handed out, the interim root stays
+//@   ensures implies(result1 == nil && old(c.currRoot) != nil && old(uint64(c.currRootAncestorID)) == old(rootOf(doc.IndexInternalID)) && len(c.ancestors) > 0, result0 == nil && c.currRoot == old(c.currRoot))
+// another root: the previous interim root is handed out and a root for the new document takes its place
+//@   ensures implies(result1 == nil && len(c.ancestors) > 0 && (old(c.currRoot) == nil || old(uint64(c.currRootAncestorID)) != old(rootOf(doc.IndexInternalID))), result0 == old(c.currRoot) && c.currRoot != nil && uint64(c.currRootAncestorID) == old(rootOf(doc.IndexInternalID)))
